@@ -63,20 +63,25 @@ static vj::value bshape_mixed(const std::vector<std::vector<long>>& ss) {
     return with_dim<4>(ss[0].size(), [&](auto n) { return shape_project(ix::broadcast_shape(arr_of<decltype(n)::value>(ss[0]), conv<std::vector<size_t>>(ss[1]))); });
 }
 
+// the element count a view reports (nm::size) next to its shape and elements: it has to be the product of the shape
+template <class V> static vj::value with_size(const V& v) {
+    if constexpr (meta::is_maybe_v<V>) { if (!static_cast<bool>(v)) return nothing_res(); return with_size(*v); }
+    else { auto p = project(v); p.set("size", (long)nm::size(v)); return p; }
+}
 template <class T> static vj::value tuple_project(const T& t) {
     // tuple of arrays -> {ok, crash, shape:[shape...], elems:[elems...]}
     if constexpr (meta::is_maybe_v<T>) { if (!static_cast<bool>(t)) return nothing_res(); return tuple_project(*t); }
     else {
-        vj::value shapes = vj::value::array(), elems = vj::value::array();
+        vj::value shapes = vj::value::array(), elems = vj::value::array(), sizes = vj::value::array();
         constexpr auto N = meta::len_v<T>;
         bool ok = true;
         meta::template_for<N>([&](auto I) {
             auto p = project(nmtools::get<decltype(I)::value>(t));
             if (!p["ok"].as_bool()) ok = false;
-            shapes.push(p["shape"]); elems.push(p["elems"]);
+            shapes.push(p["shape"]); elems.push(p["elems"]); sizes.push((long)nm::size(nmtools::get<decltype(I)::value>(t)));
         });
         vj::value r = vj::value::object();
-        r.set("ok", ok).set("crash", "").set("shape", shapes).set("elems", elems);
+        r.set("ok", ok).set("crash", "").set("shape", shapes).set("elems", elems).set("sizes", sizes);
         return r;
     }
 }
@@ -108,9 +113,9 @@ static vj::value handle(const vj::value& c) {
     }
     if (op == "broadcast_to") {
         auto dst = args["dst"].as_vec<size_t>();
-        if (ss[0].empty()) { long a = 1; return project(view::broadcast_to(a, dst)); }
+        if (ss[0].empty()) { long a = 1; return with_size(view::broadcast_to(a, dst)); }
         auto a = make_leaf<long>(ss[0], 0);
-        return project(view::broadcast_to(a, dst));
+        return with_size(view::broadcast_to(a, dst));
     }
     if (op == "broadcast_arrays") {
         if (ss.size() == 2) {
